@@ -140,6 +140,8 @@ int main(void)
 		if ((EAMASK >> i) & 1) {
 			/* ASSUME: EA inode numbers are non-zero and pairwise distinct (a shared EA inode is the refcount case: outside) */
 			ASSUME(A[i].ea_ino != 0);
+			/* ASSUME: an EA-inode-backed attribute does not have index 0 together with an empty name: with e_value_offs = 0 its first four bytes would be the terminator encoding (the xattr system calls reject empty names) */
+			ASSUME(A[i].nlen != 0 || A[i].idx != 0);
 			for (b = 0; b < i; b++)
 				ASSUME(A[b].ea_ino != A[i].ea_ino);
 		} else
